@@ -405,6 +405,8 @@ fn directed(ep: &str, seed: &[u8]) -> Vec<Vec<u8>> {
             }
         }
         "fetch-v1" | "fetch-v2" | "handshake" | "ls-refs" => {
+            // line-level: re-advertised / missing / swapped ref lines, symref capabilities naming them
+            out.extend(mutate::directed_lines(seed));
             // a control packet in front of, and in place of, the first line
             for ctl in [&b"0000"[..], b"0001", b"0002", b"0004"] {
                 let mut o = ctl.to_vec();
@@ -514,7 +516,14 @@ fn main() {
         let n = if big { args.budget(500, 5000) } else { args.budget(1500, 15000) };
         for _ in 0..n {
             let seed = &seeds[rng.usize(seeds.len())];
-            let (input, _first) = mutate::mutate(&mut rng, seed, ep.shape, ep.seeds, seeds);
+            // advertisements and fetch responses: half of the stream is mutated line-wise (the framing
+            // stays valid, the set of lines changes), sometimes followed by a byte-level step
+            let structured = matches!(ep.name, "handshake" | "ls-refs" | "fetch-v1" | "fetch-v2") && rng.chance(1, 2);
+            let (input, _first) = match structured.then(|| mutate::mutate_lines(&mut rng, seed)).flatten() {
+                Some(d) if rng.chance(3, 4) => (d, "lines"),
+                Some(d) => mutate::mutate(&mut rng, &d, ep.shape, ep.seeds, seeds),
+                None => mutate::mutate(&mut rng, seed, ep.shape, ep.seeds, seeds),
+            };
             run_case(&mut rep, &mut rn, ep, &input, "mut");
         }
     }
